@@ -98,6 +98,8 @@ def _worker(args):
         if pad:
             env['VF_PAD'] = str(pad)
         rundir = os.path.join(wd, 'c18-%d-%d' % (os.getpid(), ci))
+        if ci % 4 == 0:
+            rundir += '-' + 'p' * 215       # diagnostics that name the compiler proper carry the whole path
         o = drv.run(drvb, rundir, cl, files, env_extra=env, missing=missing, timeout=20)
         if o.timeout:
             o2 = drv.run(drvb, rundir, cl, files, env_extra=env, missing=missing, timeout=40)     # a watchdog firing is inconclusive: once more
@@ -176,6 +178,41 @@ def run(tier):
             for key, p in rec['probs']:
                 ck.violation(key, '%s; %s (target %s)' % (p, rec['desc'], rec['triple']), {'scenario.txt': rec['desc'] + '\n'}, {'args': rec['cl']})
     ck.extra['stages_terminated_by_the_driver'] = interrupted
+    # the real compiler proper as the compile stage, with more output than a pipe holds, and a stage behind it that fails at once; and a driver whose
+    # standard error cannot take a single byte
+    plain = common.build('plain')
+    bigsrc = ''.join('int f%d(int a, int b) { return a * %d + b; }\n' % (i, i) for i in range(3000)).encode()
+    extra = []
+    for t in drv.TRIPLES[:3]:
+        for role, mode in (('qbe', 'exit-before'), ('as', 'exit-before'), ('qbe', 'segv-before'), ('as', 'kill')):
+            extra.append((t, ['-c', 'big.i'], {'big.i': bigsrc}, {'VF_FAULT': '%s:0:%s' % (role, mode)}, (), dict(real_cc=plain), 'real compiler, %s %s' % (role, mode)))
+            extra.append((t, ['big.i', '-o', 'prog'], {'big.i': bigsrc}, {'VF_FAULT': '%s:0:%s' % (role, mode)}, (), dict(real_cc=plain), 'real compiler linking, %s %s' % (role, mode)))
+        for cl, miss, flt in ((['-c', 'a.c'], ('cproc-qbe',), None), (['-c', 'a.c'], (), 'cpp:0:exit-after'), (['a.c', 'b.c'], (), 'as:1:exit-before'), (['a.c'], ('ld',), None), (['-S', 'a.c'], (), 'qbe:0:kill')):
+            extra.append((t, cl, {'a.c': b'int a;\n', 'b.c': b'int b;\n'}, {'VF_FAULT': flt} if flt else {}, miss, dict(stderr_full_pipe=True), 'standard error is a full non-blocking pipe, %s' % (flt or 'missing ' + miss[0])))
+    for k, (t, cl, files, env, miss, kw, what) in enumerate(extra):
+        drvb = drv.build(t)
+        rundir = os.path.join(wd, 'c18x-%d' % k)
+        o = drv.run(drvb, rundir, cl, files, env_extra=env, missing=miss, timeout=30, **kw)
+        if o.timeout:
+            o = drv.run(drvb, rundir, cl, files, env_extra=env, missing=miss, timeout=60, **kw)
+        ck.evaluations += 1
+        ck.decided += 1
+        ck.count('mode', 'extra:' + what.split(',')[0])
+        ck.distinct.add(('extra', what, t))
+        desc = '%s; command %r (target %s)' % (what, cl, t)
+        if o.timeout:
+            ck.violation('hang:extra:' + what.split(',')[0], 'driver did not return within 60 s (twice): ' + desc, {'scenario.txt': desc + '\n'})
+        else:
+            if o.status in (0, None):
+                ck.violation('status:extra:' + what.split(',')[0], 'a stage fails but the driver exits with status %s signal %s: %s' % (o.status, o.signal, desc), {'scenario.txt': desc + '\n'})
+            if o.tmp_left:
+                ck.violation('tmp-left:extra', 'temporary objects left behind %s: %s' % (o.tmp_left, desc), {'scenario.txt': desc + '\n'})
+            if o.alive:
+                ck.violation('alive:extra', 'tool processes still exist after the driver returned %s: %s' % (o.alive, desc), {'scenario.txt': desc + '\n'})
+            left = [f for f in o.new_files if f.endswith(('.o', 'prog', '.s'))]
+            if left:
+                ck.violation('output-left:extra', 'outputs left behind %s: %s' % (left, desc), {'scenario.txt': desc + '\n'})
+        shutil.rmtree(rundir, ignore_errors=True)
     ck.rule = ('pipeline shapes (1..3 inputs x input types x last stage E/emit-qbe/S/c/link) x every stage of every pipeline (and the link step) x 7 failure modes (+ no fault) x random start/exit delays and output padding; '
                'distinct = (shape, mode, failing invocation); observed: status, link step, files, temporaries (LD_PRELOAD shim), surviving pids')
     ck.assumptions = ['the stub tools stand for real tools: they read all input before writing and die on SIGTERM', 'a watchdog firing twice (20 s, 40 s; injected delays <= 0.1 s) is reported as a hang']
